@@ -238,8 +238,9 @@ def memstore_unit(res):
 
 def update_changes_unit(res):
     """_update_reg_changes: state per register in {untracked, unknown(None), (origin, delta)}; a constant change adds to
-    delta, a copy takes the source's delta (+ its own constant) and the source's ORIGIN (copy chains), an unknown change
-    or an unknown source makes the register unknown; registers not mentioned are untouched; the register operands the
+    delta, a copy takes the source's delta (+ its own constant) and the source's ORIGIN (copy chains) whatever the register
+    held before (also after an unknown change), an unknown change, a constant added to an unknown value or an unknown source
+    makes the register unknown; registers not mentioned are untouched; the register operands the
     instruction writes are recorded (views written so far) in the pre-access pass."""
     ex = eng()
     ex.load(REPO + "/" + ISA)
@@ -299,7 +300,9 @@ def update_changes_unit(res):
             if ch == "none":
                 g.append(z3.BoolVal((a == "ABSENT") == (st_a == "absent")))
                 return z3.And(g)
-            if ch == "unknown" or st_a == "unknown":
+            if ch == "unknown" or (st_a == "unknown" and ch == "const"):
+                # an unknown change, or a constant added to an unknown value; a COPY of another register makes a register
+                # known again whatever it held before (statement: register copies are accounted for)
                 g.append(z3.BoolVal(a is None))
                 return z3.And(g)
             if ch == "const":
